@@ -361,6 +361,26 @@ const OFF_SPECIALS: &[&str] = &[
     "Z", "z", "UTC", "+05\u{a0}30", "+0a:30", "+05:a0", "+05:60", "+05:69", "+05:5", "+２３:00",
 ];
 
+/// finding F25 (known_findings.json): a zone-aware value whose wall-clock date lies outside
+/// `NaiveDate::MIN..=MAX` prints that date (year +262143 / -262144) and `FromStr` rejects it.  Called
+/// only for such values (whole-minute offset, leap second only on second 59).
+fn report_f25(c: &mut Ctx, z: &DateTime<FixedOffset>, dbg: &Text, dsp: &Text, reported: &mut u32) {
+    for (form, x) in [("Debug", dbg), ("Display", dsp)] {
+        if guard(|| txt(x).parse::<DateTime<FixedOffset>>().ok() == Some(*z)) != Ok(true) {
+            c.count("dtf:out-of-range-local-date-rejected(known finding F25)");
+            if *reported < 3 {
+                *reported += 1;
+                c.fail(
+                    "DateTime<FixedOffset> with out-of-range local date does not parse back",
+                    &format!("{} {} text {:?} -> {}", form, sz(z), txt(x), rd_dtf(txt(x))),
+                );
+            }
+        } else {
+            c.count("dtf:out-of-range-local-date-parses-back");
+        }
+    }
+}
+
 // ---- the run ---------------------------------------------------------------------------------------
 pub fn run(c: &mut Ctx) {
     let n = c.n(40000, 400000);
@@ -472,6 +492,7 @@ pub fn run(c: &mut Ctx) {
 
     // ---------------------------------------------------------------- DateTime<FixedOffset>
     let whole: Vec<i32> = (-1439..=1439).map(|m| m * 60).collect();
+    let mut f25_reported = 0;
     for i in 0..n.max(whole.len()) {
         let (d, ycls) = gen_date(c);
         let (t, fcls, lcls, strict) = gen_time(c);
@@ -499,6 +520,9 @@ pub fn run(c: &mut Ctx) {
         }
         let (dbg, dsp) = (dbg_text(&z), dsp_text(&z));
         c.op(&format!("tx.dtf {}", sz(&z)), &format!("{} | {}", both(&dbg, &rd_dtf), both(&dsp, &rd_dtf)));
+        if !local_ok && strict && whole_min {
+            report_f25(c, &z, &dbg, &dsp, &mut f25_reported);
+        }
         if strict && whole_min && local_ok {
             for (form, x) in [("Debug", &dbg), ("Display", &dsp)] {
                 let back = guard(|| txt(x).parse::<DateTime<FixedOffset>>().ok());
@@ -537,6 +561,9 @@ pub fn run(c: &mut Ctx) {
                         c.fail(&format!("DateTime<FixedOffset> {} does not parse back", form), &format!("range end {} {} text {:?}", k, sz(&z), txt(x)));
                     }
                 }
+            } else if k < 2 {
+                // k = 2 is a leap-second value off second 59 for most offsets: outside the property anyway
+                report_f25(c, &z, &dbg, &dsp, &mut f25_reported);
             }
         }
     }
